@@ -2247,7 +2247,7 @@ class Table(Vector):
 		# --- 4. Edge case: empty table ---
 		if nrows == 0:
 			# Preserve columns / names but with no rows
-			new_cols = [Vector([], name=col._name) for col in self._underlying]
+			new_cols = [Vector([], dtype=col._dtype, name=col._name) for col in self._underlying]
 			return Table(new_cols)
 
 		# --- 5. Build sorted row index using stable multi-key sort ---
@@ -2283,7 +2283,8 @@ class Table(Vector):
 		for col in self._underlying:
 			src = col._underlying
 			new_data = [src[i] for i in indices]
-			new_cols.append(Vector(new_data, name=col._name))
+			# (same elements in another order: the column keeps its dtype)
+			new_cols.append(Vector(new_data, dtype=col._dtype, name=col._name))
 
 		return Table(new_cols)
 
